@@ -483,7 +483,9 @@ func GetFingerprint(q string) string {
 				if Debug {
 					fmt.Println("Space after values")
 				}
-				if valueNo == 1 {
+				// One blank after the value list, whether the white space
+				// follows its first (...), a comma or a later (...).
+				if fi > 0 && !isSpace(rune(f[fi-1])) {
 					f[fi] = ' '
 					fi++
 				}
